@@ -251,4 +251,8 @@ class StepClock:
                 scale = max(abs(y) for y in p)
                 if d2 > 1e-6 * (1.0 + scale) and d2 >= 0.9 * d1:
                     moving.append(k)
+        if moving == []:
+            # the diff is flat but no quantity has settled into linear growth yet (a slow transient
+            # dominates one of the two windows): not a verdict - keep iterating; the sweep cap decides
+            return None
         return {"site": self.loop_site, "sweeps": self.sweeps, "diff": b, "moving": moving}
